@@ -226,8 +226,16 @@ def split_lemma_hook(I, x, sep, result_seq):
     if tb is None or d is None:
         return
     spb = sp(tb)
-    I.assume(sp(z3.Concat(tb, d)) == z3.Concat(init(spb), sp(z3.Concat(Val.s(last(spb)), d))))
+    new = sp(z3.Concat(tb, d))
+    I.assume(new == z3.Concat(init(spb), sp(z3.Concat(Val.s(last(spb)), d))))
     I.assume(z3.Length(result_seq) >= 1)
+    # consequences of L1 by sequence algebra (|split(...)| >= 1), stated explicitly as solver hints: the proof of the
+    # buffer invariant was otherwise sensitive to symbol naming (0.5 s or > 60 s)
+    buf_d = sp(z3.Concat(Val.s(last(spb)), d))
+    I.assume(z3.Implies(z3.And(z3.Length(buf_d) >= 1, z3.Length(spb) >= 1),
+                        z3.And(last(new) == last(buf_d),
+                               init(new) == z3.Concat(init(spb), init(buf_d)),
+                               z3.Length(new) == z3.Length(spb) - 1 + z3.Length(buf_d))))
     k = z3.Int("k!sp")
     I.assume(z3.ForAll([k], z3.Implies(z3.And(k >= 0, k < z3.Length(result_seq)), V.is_str(result_seq[k]))))
     I.ghost["complete_lines_before_this_chunk"] = init(spb)
